@@ -142,6 +142,51 @@ def real_checks(clsname, r, quick):
     return viol, {"pairs": n_pairs, "second_reads": n_ident, "equal_sets": n_noop}, samples
 
 
+def component_checks(quick):
+    """the instantiated components (cosmology object, growth model and its callable, transfer model, filter) are not rebuilt by
+    parameters they do not take — for every growth model, not only the default one (mirrors the Lean cone upper bounds)"""
+    realfuzz.init()
+    viol, n = [], 0
+    allowed = {"cosmo": {"cosmo_model", "cosmo_params"}, "growth": {"cosmo_model", "cosmo_params", "growth_model", "growth_params"},
+               "_growth_factor_fn": {"cosmo_model", "cosmo_params", "growth_model", "growth_params"},
+               "transfer": {"cosmo_model", "cosmo_params", "transfer_model", "transfer_params"},
+               "filter": {"cosmo_model", "cosmo_params", "transfer_model", "transfer_params", "lnk_min", "lnk_max", "dlnk", "n", "filter_model", "filter_params"}}
+    changes = [("z", 1.0), ("z", 2.5), ("sigma_8", 0.9), ("n", 1.0), ("delta_c", 1.5), ("Mmin", 11), ("takahashi", False), ("use_splined_growth", True), ("hmf_model", "PS")]
+    with warnings.catch_warnings():
+        warnings.simplefilter("ignore")
+        np.seterr(all="ignore")
+        for cn in ("Transfer", "MassFunction"):
+            cls = realfuzz.class_by_name(cn)
+            pars = set(realfuzz.parameters(cls))
+            for gm in ("GrowthFactor", "GenMFGrowth", "Carroll1992"):
+                o = cls(**dict(copy.deepcopy(realfuzz.BASE[cn]), growth_model=gm))
+                for p, v in changes:
+                    if p not in pars:
+                        continue
+                    held = {}
+                    for q in allowed:
+                        try:
+                            held[q] = getattr(o, q)
+                        except Exception:
+                            pass
+                    try:
+                        o.update(**{p: v})
+                    except Exception:
+                        continue
+                    for q, before in held.items():
+                        if p in allowed[q]:
+                            continue
+                        n += 1
+                        try:
+                            after = getattr(o, q)
+                        except Exception:
+                            continue
+                        if after is not before:
+                            viol.append({"key": f"{cn}/{p}->{q}/component", "what": f"{cn}(growth_model={gm}): changing {p} to {v!r} rebuilt the component `{q}`",
+                                         "replay": {"kind": "c13", "script": [f"o = {cn}(growth_model={gm!r}, ...)", f"c = o.{q}", f"o.update({p}={v!r})", f"o.{q} is c"]}})
+    return viol, n
+
+
 def run(ctx):
     quick = ctx["tier"] == "quick"
     out = {"violations": [], "broken": [], "coverage": {}, "assumptions": [
@@ -169,6 +214,13 @@ def run(ctx):
                 continue
             seen.add(x["key"])
             out["violations"].append({"key": x["key"], "what": x["what"], "replay": {"kind": "c13-real", "cls": cn, "key": x["key"], "tree": tree_hash()}})
+    cv, ncomp = component_checks(quick)
+    tot["pairs"] += ncomp
+    seen = set()
+    for x in cv:
+        if x["key"] not in seen:
+            seen.add(x["key"])
+            out["violations"].append(x)
     k2res = k2.run_k2(quick)
     if k2res["bad_edges"] or k2res["bad_index"]:
         out["broken"].append({"kind": "correspondence", "what": "K2: real dependency index / observed reads outside the generated static cone",
